@@ -899,10 +899,17 @@ class PyvalColorizer:
                 if args[0] is not None:
                     raise ValueError('Branch expected None arg but got %s'
                                      % args[0])
+                # The parser factors out the common prefix of the alternatives: the branch
+                # can be preceded by other elements, in that case it must be delimited.
+                delimit = len(tree) > 1
+                if delimit:
+                    self._output('(?:', self.RE_GROUP_TAG, state)
                 for i, item in enumerate(args[1]):
                     if i > 0:
                         self._output('|', self.RE_OP_TAG, state)
                     self._colorize_re_tree(item, state, True, groups)
+                if delimit:
+                    self._output(')', self.RE_GROUP_TAG, state)
 
             elif op == sre_constants.IN: #type:ignore[attr-defined]
                 if (len(args) == 1 and args[0][0] == sre_constants.CATEGORY): #type:ignore[attr-defined]
